@@ -555,3 +555,26 @@ def last_attr(path):
         if s.startswith("."):
             return s[1:]
     return None
+
+
+_PERTURB_CACHE = {}
+
+
+def numerical_jacobian_functions(pkg):
+    """(BaseEdge._calc_jacobian with its private helpers inlined, the set of original FunctionDefs that make it up).
+    Stores to `.pose` inside these functions are the perturb/restore pair of numerical differentiation (rule C15-E2)."""
+    key = id(pkg)
+    if key not in _PERTURB_CACHE:
+        from .inline import inline_helpers
+        fn = pkg.own_method("BaseEdge", "_calc_jacobian")
+        if fn is None:
+            _PERTURB_CACHE[key] = (None, set())
+        else:
+            new, inl = inline_helpers(pkg, fn, keep=("calc_error", "calc_chi2", "calc_jacobians", "calc_chi2_gradient_hessian", "is_valid", "_is_valid"))
+            _PERTURB_CACHE[key] = (new, {fn} | set(inl))
+    return _PERTURB_CACHE[key]
+
+
+def is_numjac_perturbation(pkg, ev):
+    _, fns = numerical_jacobian_functions(pkg)
+    return ev.kind == "AttrStore" and last_attr(ev.path) == "pose" and ev.fn in fns
